@@ -261,7 +261,9 @@ def undefinedAssigns (undefined : List String) : List Stmt :=
 
 abbrev DirTable := List (Nat × List (String × Expr))
 
-/-- `_create_loop_options(node)` (+ the extra entries `visit_For` appends). -/
+/-- `_create_loop_options(node)` (+ the extra entries `visit_For` appends).  No `DIRECTIVES` annotation, no
+`set_loop_options` entry in it, and a `set_loop_options()` call without keyword arguments (empty table; /repo
+41b6a09 returns `{}` before the `zip`) all give the empty dict. -/
 def loopOptions (dirs : DirTable) (id : Nat) (extra : List (String × Expr)) : Expr :=
   let kvs := ((dirs.lookup id).getD []) ++ extra
   .other 0 "Dict" [toString kvs.length] (kvs.map (fun kv => strConst kv.1) ++ kvs.map (·.2))
